@@ -166,6 +166,20 @@ def chunks(it: Iterable, n: int):
         yield c
 
 
+def _worker_init():
+    """Give each forked worker its own gemseo multiprocessing manager (created lazily on first use).
+
+    gemseo keeps one process-wide ``SyncManager``; a manager inherited through fork is a single server process that
+    every worker would talk to, which serialises every cache operation of every worker (measured: no speed-up at all
+    from 4 to 14 workers on full-cache histories).  Objects created in the parent keep their own proxies.
+    """
+    import sys
+
+    mod = sys.modules.get("gemseo.utils.multiprocessing.manager")
+    if mod is not None and os.environ.get("VERIF_SHARED_MANAGER") != "1":
+        setattr(mod, "__manager", None)
+
+
 def _pool(jobs: int):
     """A fork pool whose workers are not daemonic (cases may start their own processes / managers)."""
     import multiprocessing.pool
@@ -184,7 +198,7 @@ def _pool(jobs: int):
     class _Ctx(type(base)):
         Process = _NoDaemonProcess
 
-    return multiprocessing.pool.Pool(jobs, context=_Ctx())
+    return multiprocessing.pool.Pool(jobs, initializer=_worker_init, context=_Ctx())
 
 
 def pmap(fn: Callable[[Any, Tally], None], cases: Iterable, tally: Tally, jobs: int = 16, chunk: int = 50, timeout: int = 0) -> None:
